@@ -20,20 +20,11 @@ def selftest():
     sem.selftest()
 
 
-def check(case):
-    model = case[1]
-    fm, fails = cm.built(model)
-    if fails:
-        return fails
+def judge(res, model):
     tcs = sem.tree_configs_cached(model)
     exact_tree = len(tcs)
     if exact_tree != sem.count_closed_form(model):
         raise AssertionError('reference counters disagree on %s' % (model,))
-    try:
-        res = FMEstimatedConfigurationsNumber().execute(fm).get_result()
-        engine.tick()
-    except Exception as exc:  # noqa: BLE001
-        return [Fail('raises:%s' % type(exc).__name__, str(exc))]
     if isinstance(res, bool) or not isinstance(res, int):
         return [Fail('result-not-int', repr(res))]
     if not model[1]:
@@ -44,6 +35,21 @@ def check(case):
         if res < exact:
             return [Fail('estimate', {'estimate': res, 'exact': exact})]
     return []
+
+
+def check(case):
+    model = case[1]
+    if case[0] == 'SE':
+        return opscfg.edit_history(model, FMEstimatedConfigurationsNumber, judge)
+    fm, fails = cm.built(model)
+    if fails:
+        return fails
+    try:
+        res = FMEstimatedConfigurationsNumber().execute(fm).get_result()
+        engine.tick()
+    except Exception as exc:  # noqa: BLE001
+        return [Fail('raises:%s' % type(exc).__name__, str(exc))]
+    return judge(res, model)
 
 
 def outcome(case):
